@@ -206,7 +206,7 @@ class Db:
         self.nops += 1
         if via == "handle":
             name = self.meas_name(m)
-            if name in self.old_handles and self.nops % 2 == 0:
+            if name in self.old_handles and (self.nops % 2 == 0 or a.get("sticky")):
                 target = self.old_handles[name]          # a handle obtained before the data changed
             else:
                 target = db.measurement(name)
@@ -333,7 +333,7 @@ class Db:
     # ---- C14: wrongly typed values -------------------------------------------------------
     BAD_VALUES = {"int": 7, "int0": 0, "float": 1.5, "float0": 0.0, "bool": True, "bool0": False,
                   "bytes": b"x", "bytes0": b"", "none": None, "list": ["a"], "list0": [],
-                  "dict": {"a": 1}, "dict0": {}, "str": "text", "str0": ""}
+                  "dict": {"a": 1}, "dict0": {}, "str": "text", "str0": "", "numstr": "12.5", "numbytes": b"42"}
 
     def _run_bad(self, a):
         """Supply one wrongly typed value through one API entry point (spec: BadCells)."""
@@ -428,6 +428,8 @@ class Db:
             if kind == 0:
                 continue
             mapping = {th.key(slot, i + 1): th.val(slot, v) for i, v in enumerate(u[vv]) if v != MISSING}
+            if u.get("alt") and slot == "field":
+                mapping = {k: _alt(v) for k, v in mapping.items()}      # an equal number in its other representation
             if kind == 1:
                 kw[arg] = mapping
             elif kind == 2:
@@ -462,6 +464,17 @@ class Db:
                 return inner(old) if callable(inner) else dict(inner)
             kw["fields"] = failing
         return kw
+
+
+def _alt(v):
+    """the same number written differently: 1 <-> 1.0, 0 <-> -0.0 (equal under ==, so an update to it changes nothing)"""
+    if isinstance(v, bool) or v is None:
+        return v
+    if isinstance(v, int):
+        return -0.0 if v == 0 else (float(v) if float(v) == v else v)
+    if isinstance(v, float) and v == int(v) and abs(v) < 2 ** 53:
+        return -0.0 if (v == 0 and str(v) == "0.0") else (0 if v == 0 else int(v))
+    return v
 
 
 def _number(text):
